@@ -588,6 +588,7 @@ class PteraTransformer(NodeTransformer):
         new_body += self.generate_interactions(node.args)
 
         wrapped_body = []
+        self.declarations = []
 
         body = node.body
         first = body[0]
@@ -619,6 +620,10 @@ class PteraTransformer(NodeTransformer):
             exit_tag=self._get("exit_tag"),
         )
 
+        # global / nonlocal declarations must precede every use of the names,
+        # including the ones we add at the top of the body
+        wrapped_body.extend(self.declarations)
+
         wrapped_body.append(
             ast.With(
                 items=[
@@ -649,6 +654,13 @@ class PteraTransformer(NodeTransformer):
     def visit_ClassDef(self, node):
         # The body of a nested class is a scope of its own
         return node
+
+    def visit_Global(self, node):
+        # Hoisted to the top of the function by visit_FunctionDef
+        self.declarations.append(node)
+        return ast.copy_location(ast.Pass(), node)
+
+    visit_Nonlocal = visit_Global
 
     def visit_For(self, node):
         new_body = self.generate_interactions(node.target)
